@@ -334,6 +334,14 @@ def r4_nope_encodable(L, repo):
              "%d..%d" % (lo, hi), v, isinstance(v, int) and lo <= v <= hi)
 
 
+def r5_no_discard(L, repo):
+    """R5: suppression (RFMUTE / FAKE_DROP) acts on bursts when they are forwarded: a muted transceiver's queued bursts
+    still yield one NOPE indication each at version-1 peers and forwarding resumes with the queue intact after
+    un-muting. Necessary condition: nothing but the power-off handler discards the transmit queue."""
+    from rules.c03 import who_may_clear
+    who_may_clear(L, repo, "C18.R5")
+
+
 def run(L, tier):
     repo = Repo(L.repo)
     L.unit(F)
@@ -341,3 +349,4 @@ def run(L, tier):
     L.stage(r2_fake_drop, L, repo)
     L.stage(r3_suppression, L, repo)
     L.stage(r4_nope_encodable, L, repo)
+    L.stage(r5_no_discard, L, repo)
